@@ -13,7 +13,12 @@ META = {
             "independent oracles on the implementation's postings: non-negativity and exactness of single-send scripts (portions with fractional percents, "
             "denominators up to 10^4, totals at / next to 100 %, amounts up to 2^70), and the ordering clause (ordered-sources: in a single send over an "
             "ordered, possibly nested list of plain / capped / bounded-overdraft sources in one asset every leaf gives all it can before the next one gives "
-            "anything, computed in Python from the balances; the same account at two non-adjacent places included).",
+            "anything, computed in Python from the balances; the same account at two non-adjacent places included), and the portion clause "
+            "(portion-shares: in a single send whose destination — resp. source — is an allotment of plain entries and whose portions can be "
+            "evaluated from the input alone — literals n/d and x.y%, portion variables of the request, portions read from stored metadata, "
+            "remaining — every entry receives / gives floor(n*p) plus one of the leftover units for the earliest entries, computed with Python "
+            "integers and Fractions from the TEXT of the percentages (2.05% = 205/10000), compared with the postings per account; the generator "
+            "aims at amounts below 2^63 whose product with a reduced numerator > 1 is not, and at percentages with zeros right after the point).",
     "note": "Trusted: Lean kernel (+ Mathlib's linarith/nlinarith/ring1 for the portion arithmetic); Spec; harness pretty-printer. Theorems are about Spec; the lift "
             "to the bytecode VM rests on the differential (until C08's compile_correct). send_exact_allot needs positive portion denominators (the AST "
             "admits a zero denominator the parser never builds).",
